@@ -33,7 +33,13 @@ PROP = dict(
           "Contract::root, Input::predicate_owner, is_predicate_owner_valid (right owner, code root as owner, one flipped bit, random); slot lists with duplicate and "
           "unsorted keys: initial_state_root; Contract::id on raw arguments; built Create transactions (cached CreateMetadata; ContractCreated outputs right / wrong id / "
           "wrong state root / twice / missing / code root as id); VM: Transactor::deploy on a fresh MemoryStorage (storage key of the bytecode and slots), second "
-          "deployment, a script executing CROO on the deployed contract; check_predicates and Input::check_signature with right / wrong predicate owner (oracle only). "
+          "deployment, a script executing CROO on the deployed contract; predicate ownership through EVERY public entry point (Input::is_predicate_owner_valid, "
+          "Input::check_signature, Script::check_signatures, predicates::check_predicates, predicates::check_predicates_async and Checked::check_predicates(_async) with a "
+          "shuffling tokio ParallelExecutor, IntoChecked::into_checked / into_checked_reusable_memory, Transaction::into_checked; estimate_predicates / "
+          "estimate_predicates_async / EstimatePredicates are run and recorded: estimation does not validate ownership by design) on transactions with 1..3 Coin / "
+          "MessageCoin / MessageData predicate inputs owned by: the right address, a foreign address, one flipped bit, the bare code root, the owner of ANOTHER predicate of the "
+          "same transaction: every path must reject exactly when some owner != sha256(seed || code root), naming the first such input (any such input for a shuffled "
+          "parallel delivery); the sequential, parallel and one-call verdicts are also correspondence cases (COwners) decided by the model's is_predicate_owner_valid. "
           "Every value is compared byte for byte with the Gallina model AND with an independent recomputation in the harness (own chunking + recursive RFC 6962 MTH + "
           "recursive compact sparse Merkle root + fuel_crypto::Hasher). distinct = distinct (kind, result bytes); non-trivial = non-empty code / >= 2 distinct slot keys"),
     level_text=("Machine-checked proof (Coq) that the model of Contract::root_from_code (slice::chunks loop, padding through the 16 KiB scratch buffer, "
